@@ -100,6 +100,67 @@ def refixpoint_oracle(res, sysobj, summary, when):
     return True
 
 
+def late_additions(res, rng, n):
+    """getSimulator() re-sorts on every call so that blocks added AFTER the simulator exists are scheduled: build the same
+    plan in one go and in two phases (simulator created in between), also with containers that are empty in phase 1 and receive
+    exactly one leaf each in phase 2 (the leaf count of the hierarchy does not change); the two must agree and be at the fixpoint"""
+    for i in range(n):
+        r = rng.fork(i)
+        equal_count = (i % 2 == 0)
+        m = r.randint(1, 4)
+        plan = G.random_plan(r, r.randint(2, 12) + (m if equal_count else 0), seq_ratio=(1, 8), wmax=r.choice([1, 4, 8]),
+                             kinds=['And2', 'Or2', 'Not', 'Buf', 'Mux2', 'Sub', 'AddCarryIn', 'Constant', 'Bit', 'Reg'], n_domains=m)
+        for dm in plan['domains']:
+            dm['gated'] = False
+            dm['enable'] = None
+        for nd in plan['nodes']:
+            nd.pop('own_driver', None)
+        nn = len(plan['nodes'])
+        if equal_count:
+            # the last m nodes go one into each container, everything else at the top; phase 2 = exactly those m nodes
+            for t, nd in enumerate(plan['nodes']):
+                nd['dom'] = 0
+            for t in range(m):
+                plan['nodes'][nn - m + t]['dom'] = t + 1
+            for dm in plan['domains'][1:]:
+                dm['parent'] = 0
+            order = r.shuffle(range(nn - m)) + r.shuffle(range(nn - m, nn))
+            pause = nn - m
+        else:
+            order = r.shuffle(range(nn))
+            pause = r.randint(1, nn - 1) if nn > 1 else 0
+        summary = dict(plan=G.plan_summary(plan), inst_order=order, simulator_created_after=pause, equal_leaf_count=equal_count)
+        try:
+            ref_sys, ref_ins, _, _ = G.build(plan, inst_order=order)
+            ref_sim = ref_sys.getSimulator()
+            sysobj, ins, W, leaves = G.build(plan, inst_order=order, pause_after=pause, on_pause=lambda top: top.getSimulator())
+            sim = sysobj.getSimulator()
+        except Exception as e:
+            res.hist('late_build_errors', str(e)[:50])
+            continue
+        ops = [(o[0], o[1].name, o[2]) if o[0] == 'poke' else o for o in G.random_ops(r.fork('ops'), ins, 6)]
+        ok = True
+        for o in ops:
+            for so, si in ((ref_sys, ref_sim), (sysobj, sim)):
+                names = {w.name: w for w in D.all_wires(so)}
+                if o[0] == 'poke':
+                    names[o[1]].put(o[2])
+                else:
+                    si.clk(o[1])
+            if o[0] != 'clk':
+                continue          # the property speaks about the state at simulator creation and after every clk()
+            a = {w.name: w.value for w in D.all_wires(ref_sys)}
+            b = {w.name: w.value for w in D.all_wires(sysobj)}
+            if a != b and ok:
+                ok = False
+                diff = {k: (a[k], b.get(k)) for k in a if a[k] != b.get(k)}
+                res.fail('blocks added after the simulator was created are not (correctly) scheduled: values differ from the same design built in one go',
+                         dict(summary, ops=ops, differing_wires=dict(list(diff.items())[:5])))
+        if ok:
+            refixpoint_oracle(res, sysobj, dict(summary, cycle_length=None, depth=None), 'after late additions and clk()')
+        res.count(('late', i, str(summary)), hist={'late_additions': 'equal-count' if equal_count else 'random-pause'})
+
+
 def main(res, tier, rng, replay):
     import py4hw
     ok, metas, errors, changed = regenerate()
@@ -204,6 +265,7 @@ def main(res, tier, rng, replay):
         nb.run()
     except ToolFailure as e:
         res.broken.append(('correspondence', 'net-sim', str(e)[:300]))
+    late_additions(res, rng.fork('late'), 60 if tier == 'quick' else 1200)
     # sorter model vs implementation: exact order / exception
     try:
         outs = run_driver('Drv/C04.lean', reqs)
